@@ -125,6 +125,25 @@ def case(item):
     G = 3
     literal = (G ** K) <= 4000
     dt = oracle.exact_root_vector if literal else oracle.recursion_root_vector
+    # "for every concentration value": also ONE distribution object whose concentration is re-assigned between
+    # evaluations, as the run loop does after every concentration update (score, assign, score again)
+    shared = TreeJointDistribution(FSCRPDistribution(ALPHAS[-1]))
+    first = next(iter(vs.values()))
+    for alpha in ALPHAS + ALPHAS[:1]:
+        try:
+            float(shared.log_p_one(first))
+            shared.prior.alpha = alpha
+            got_s = (float(shared.log_p(first)), float(shared.log_p_one(first)))
+            both_s = tuple(float(x) for x in shared.compute_both_log_p_and_log_p_one(first))
+        except Exception as e:
+            res["problems"].append("re-used distribution object: density raised %s: %s" % (type(e).__name__, e))
+            break
+        res["evals"] += 4
+        wm = oracle.ref_log_joint(s, data, alpha, "marginal", data_term=dt)
+        wo = oracle.ref_log_joint(s, data, alpha, "one", data_term=dt)
+        for label, g, w in (("log_p", got_s[0], wm), ("log_p_one", got_s[1], wo), ("fused log_p", both_s[0], wm), ("fused log_p_one", both_s[1], wo)):
+            if not abs(g - w) <= 1e-8 * (1 + abs(w)):
+                res["problems"].append("distribution object re-used after its concentration was set to alpha=%g (%s): %s = %.12g, model = %.12g" % (alpha, op_mode, label, g, w))
     for alpha in ALPHAS:
         td = TreeJointDistribution(FSCRPDistribution(alpha))
         want_m = oracle.ref_log_joint(s, data, alpha, "marginal", data_term=dt)
